@@ -52,7 +52,8 @@ FORMAT = (
     "mask; nreq; (req; okind; oval)*] -> per request the four integers of mode 0, then for every layer position, every "
     "listener and every event kind 0..5 the number of invocations, then the same counts of the reference run (same "
     "script, well-behaved listeners). Panic mask (modes 2, 4): bit i = listener i panics with a String payload, bit "
-    "i+4 = it panics with a payload whose Drop panics (std::panic::panic_any)"
+    "i+4 = it panics with a payload whose Drop panics (std::panic::panic_any), bit i+8 = with a payload whose Drop "
+    "panics with such a payload again, three levels deep"
 )
 RULE = (
     "mode 1: every layer alone x k 0..3 x 1..2(3) requests x a Pending, an Err, Pending+Pending/Err at every poll "
@@ -330,6 +331,13 @@ def corpus():
     out.append(lis(8, 2, 32, [2, 0]))
     out.append(lis(0, 2, 16, [0, 1]))
     out.append(lis(2, 3, 16 + 2, [0, 1, 1, 1, 0, 0]))
+    # ... and with a payload whose Drop panics with such a payload again, three levels deep (fix d1b49ff:
+    # core::events::drop_panic_payload, used by emit and by reconnect's callback helper)
+    out.append(lis4([0], 2, 256, [(5, 0, 11)]))
+    out.append(lis4([8], 1, 256, [(5, 0, 11)]))
+    out.append(lis4([4, 8, 0], 2, 256 + 512, [(5, 0, 11), (6, 1, 12)]))
+    out.append(lis(0, 2, 256, [0, 1]))
+    out.append(lis(8, 2, 256 + 512, [2, 0]))
     # a top-level poll_ready that stays Pending longer than the client waits
     out.append(proto([0], 0, 2, [1] * 8 + [0]))
     out.append(proto([4, 5, 3], 1, 2, [1] * 9))
@@ -701,6 +709,8 @@ def generate(rng, tier):
             for _ in range(2 if quick else 12):
                 mask = (rng.randrange(1, 1 << nl) << 4) | rng.randrange(1 << nl)
                 out.append(lis(lid, nl, mask, [rng.randrange(5) for _ in range(rng.randrange(1, 7))]))
+                mask = (rng.randrange(1, 1 << nl) << 8) | (rng.randrange(1 << nl) << 4) | rng.randrange(1 << nl)
+                out.append(lis(lid, nl, mask, [rng.randrange(5) for _ in range(rng.randrange(1, 7))]))
     # ---- mode 4: listeners on every layer of a stack, absolute per-kind counts
     for lid in list(range(16)) + [20, 21, 22, 23]:
         for nl in (1, 2, 3):
@@ -713,11 +723,13 @@ def generate(rng, tier):
     for _ in range(200 if quick else 3000):
         st = [rng.choice(list(range(16)) + [21, 22]) for _ in range(rng.randrange(2, 6))]
         nl = rng.randrange(1, 4)
-        mask = rng.randrange(1 << nl) | (rng.randrange(1 << nl) << 4 if rng.random() < 0.5 else 0)
+        mask = (rng.randrange(1 << nl) | (rng.randrange(1 << nl) << 4 if rng.random() < 0.5 else 0)
+                | (rng.randrange(1 << nl) << 8 if rng.random() < 0.3 else 0))
         out.append(lis4(st, nl, mask, rand_reqs(rng, rng.randrange(1, 4), 7 in st)))
     for lid in list(range(16)):
         for nl in (1, 2):
             out.append(lis4([lid], nl, 16, [(5, 0, 11), (6, 0 if lid in HEDGES else 1, 12)]))
+            out.append(lis4([lid], nl, 256, [(5, 0, 11), (6, 0 if lid in HEDGES else 1, 12)]))
     return out
 
 
@@ -1122,6 +1134,8 @@ def classify(s, t):
             lab += ["listeners%d" % s[2 + n], "panicking%d" % bin(s[3 + n] & 15).count("1")]
             if s[3 + n] >= 16:
                 lab.append("payload-drop-panics")
+            if s[3 + n] >= 256:
+                lab.append("nested-payload")
         kinds = set(s[base + 2 + 3 * i] for i in range(nreq))
         lab += ["inner_ok" if x == 0 else "inner_err" for x in kinds]
         return sorted(set(lab))
